@@ -11,6 +11,10 @@ Oracle: the property statement recomputed in Python from the list of recorded sa
 filter / oldest first / first `limit`; by-timestamp = one entry per requested timestamp in request order, newest sample at
 or before it or null; typed like the port; deletion removes exactly the half-open range; one sample per value change of
 an on-change port.  Ties among equal timestamps are compared as multisets.
+Port RE-CREATION (`recreate`): a port is removed (DELETE /ports/{id} for a virtual port, BasePort.remove() otherwise) and a
+port with the same id and another type / integer flag is created (POST /ports or core.ports.load); "typed like the port"
+is judged with the type of the port that exists when the query is made; the samples stored under the id go with the
+removal the janitor performs at its next iteration (model: recreatePort / schedule / janitorPending).
 """
 import asyncio
 import collections
@@ -97,6 +101,16 @@ def adapt(tag, q):
     return f'f{q}'
 
 
+def coerce_tok(tok, tag):
+    """a polled value as a value of a port of type `tag` (identity when it already is one)"""
+    if tok == 'n':
+        return 'n'
+    return adapt(tag, stored_of_tok(tok))
+
+
+PTYPE = {'b': {'type': 'boolean'}, 'i': {'type': 'number', 'integer': True}, 'n': {'type': 'number'}}
+
+
 def hexq(s):
     return '-' if s is None else 'x' + s.encode().hex()
 
@@ -117,7 +131,11 @@ class C18(Prop):
             'retention janitor, by-timestamp requests combined with limit/from/to and with 1001-1500 timestamps, and '
             'OVERLAPPING operations (one by-timestamp query or removal suspended at its persistence call - before or after '
             'the call executes on the store - while 1-3 other operations run to completion, then resumed and the same '
-            'question asked again), with a monotone virtual clock that moves by '
+            'question asked again), port RE-CREATION (a port - instrumented or virtual - is removed and a port with the same '
+            'id and another type / integer flag is created through DELETE /ports/{id} + POST /ports or BasePort.remove + '
+            'core.ports.load, after the old port has been asked for its history; values of the new type are recorded and '
+            'queried before and after the janitor iteration that performs the removal scheduled by the port removal), '
+            'with a monotone virtual clock that moves by '
             'ms..hours; three persistence drivers; a case is non-trivial when at least one query returned a non-empty '
             'answer and the sequence contained a cache hit, a delete, a recording, a limit cut or a duplicate/unsorted '
             'timestamp list; distinct = distinct list of observed answers')
@@ -127,6 +145,9 @@ class C18(Prop):
                       'samplerTick / janitorTick <-> one iteration of core.history.sampling_task / janitor_task, '
                       'sStep getBegin/getFetch/getEnd/delBegin/delExec <-> the two halves of get_samples_by_timestamp / '
                       'remove_samples around their awaited persistence call (gate in harness/persist_c18.py), '
+                      'recreatePort / schedule / janitorPending <-> core.api.funcs.ports.delete_port (BasePort.remove -> '
+                      'history.remove_samples(background=True)) + post_ports (core.ports.load) and the second half of a '
+                      'janitor_task iteration, '
                       'persist.base sample functions on the Redis / Mongo / JSON drivers')
     TRUSTED = ['fakeredis / mongomock stand in for the servers; the delegating persist driver of harness/persist_c18.py',
                'virtual time.time(); instrumented Port subclass as value source',
@@ -152,9 +173,11 @@ class C18(Prop):
         from qtoggleserver.core import history as core_history
         from qtoggleserver.core import main as core_main
         from qtoggleserver.core import ports as core_ports
+        from qtoggleserver.core import vports as core_vports
         from qtoggleserver.core.api.funcs import ports as ports_funcs
         from qtoggleserver.system import date as system_date
         from harness import persist_c18
+        self.core_vports = core_vports
         self.persist, self.core_api, self.core_history = persist, core_api, core_history
         self.core_main, self.core_ports, self.ports_funcs = core_main, core_ports, ports_funcs
         self.backends = persist_c18
@@ -303,6 +326,30 @@ class C18(Prop):
              'ops': [['begin', 'b', ['del', 30, 'pn', 0, {'from': '0', 'to': f'{T0}'}]],
                      ['get', 30, 'pn', 0, {'timestamps': f'{t2}'}], ['end'],
                      ['get', 30, 'pn', 1, {'timestamps': f'{t2}'}], ['get', 30, 'pn', 1, {'from': '0'}]]},
+            # a port removed and created again under the same id with another type: typed like the port that exists now
+            # (virtual ports through DELETE /ports/{id} + POST /ports; seed C18-r3-3), the samples stored under the id
+            # go at the next janitor iteration
+            {'driver': 'json', 'base': T0, 'intervals': {'pb': -1, 'pi': 0, 'pn': 0}, 'retention': {}, 'virtual': True,
+             'seeds': [['pb', t1, 4]],
+             'ops': [['poll', 'pb', 0, 'b1'], ['poll', 'pb', 60_000, 'b0'],
+                     ['get', 10, 'pb', 60_001, {'timestamps': f'{t2},{T0 + 5}'}], ['get', 10, 'pb', 60_001, {'from': '0'}],
+                     ['recreate', 'pb', 'n', 'api', 70_000, -1, 0],
+                     ['get', 10, 'pb', 70_000, {'timestamps': f'{t2},{T0 + 5}'}],
+                     ['poll', 'pb', 130_000, 'f86'], ['poll', 'pb', 190_000, 'f0'], ['poll', 'pb', 250_000, 'f13'],
+                     ['get', 10, 'pb', 310_000, {'from': f'{T0 + 70_000}'}],
+                     ['get', 10, 'pb', 310_000, {'timestamps': f'{T0 + 130_005},{T0 + 190_005},{T0 + 250_005},{t2}'}],
+                     ['tick', 320_000], ['poll', 'pb', 330_000, 'f-6'],
+                     ['recreate', 'pb', 'i', 'api', 340_000, -1, 0], ['poll', 'pb', 350_000, 'i7'],
+                     ['get', 10, 'pb', 360_000, {'from': '0'}],
+                     ['get', 10, 'pb', 360_000, {'timestamps': f'{T0 + 330_000},{T0 + 350_000}'}]]},
+            {'driver': 'redis', 'base': T0, 'intervals': {'pb': 0, 'pi': -1, 'pn': 2}, 'retention': {'pn': 3600},
+             'seeds': [['pi', t1, 10], ['pi', t3, 8], ['pn', t3, 6]],
+             'ops': [['hbyts', 'pi', 0, [t2, t3 + 1]], ['poll', 'pi', 1, 'i3'],
+                     ['recreate', 'pi', 'b', 'core', 2, -1, 0], ['hbyts', 'pi', 2, [t2, t3 + 1, T0 + 1]],
+                     ['poll', 'pi', 3, 'b1'], ['hslice', 'pi', None, None, None, True],
+                     ['recreate', 'pn', 'i', 'api', 3, 2, 3600], ['poll', 'pn', 4, 'i5'], ['tick', 1000], ['tick', 3000],
+                     ['get', 10, 'pn', 3000, {'from': '0'}], ['get', 10, 'pi', 3000, {'from': '0'}],
+                     ['hbyts', 'pi', 3000, [t2, t3 + 1, T0 + 1]]]},
             # argument validation order / access levels
             {'driver': 'json', 'base': T0, 'intervals': {'pb': 0, 'pi': 0, 'pn': 0}, 'seeds': [['pn', 5, 1]],
              'ops': [['get', 0, 'pn', 0, {}], ['get', 10, 'zz', 0, {}], ['get', 10, 'pn', 0, {}],
@@ -349,8 +396,9 @@ class C18(Prop):
         now = rng.choice([0, 1, 1000])
         ops = []
         kind = rng.choice(['record', 'record', 'delete', 'changes', 'changes', 'cross-port', 'periodic', 'periodic',
-                           'overlap', 'overlap'])
+                           'overlap', 'overlap', 'recreate', 'recreate'])
         retention = {n: 0 for n in names}
+        virtual = False
         if kind == 'record':
             intervals[main] = rng.choice([-1, -1, -1, 5])
             fut = rng.choice([0, 0, 1, 1000, 60_000])
@@ -427,6 +475,51 @@ class C18(Prop):
                     ops.append(['poll', main, now, rng.choice(self.VALUES[tag])])
                 ops.append(['end'])
             ops += [get(now + 1), get(now + 1), ['get', 10, main, now + 1, {'from': '0'}]]
+        elif kind == 'recreate':
+            # the port is asked for its history, removed, created again under the same id (mostly with another type),
+            # records values of the new type, and is asked again - before and after the janitor has done the removal
+            # scheduled by the port removal
+            virtual = rng.random() < 0.5
+            intervals[main] = rng.choice([-1, -1, -1, 1, 2])
+            tss = [rng.choice(old) + rng.choice([0, 0, 1, -1]) for _ in range(rng.randint(1, 3))]
+            byts = (lambda n: ['get', 10, main, n, {'timestamps': ','.join(map(str, tss))}]) if rng.random() < 0.7 else \
+                   (lambda n: ['hbyts', main, n, list(tss)])
+            rng_q = (lambda n: ['get', 10, main, n, {'from': '0', 'to': str(base + n + 1)}]) if rng.random() < 0.7 else \
+                    (lambda n: ['hslice', main, None, None, None, rng.random() < 0.5])
+            for _ in range(rng.randint(0, 2)):
+                ops.append(['poll', main, now, rng.choice(self.VALUES[tag])])
+                now += rng.choice([0, 1, 1000, 60_000])
+            if rng.random() < 0.7:
+                ops.append(byts(now))
+            if rng.random() < 0.4:
+                ops.append(rng_q(now))
+            cur = tag
+            for gen_no in range(rng.choice([1, 1, 1, 2, 3])):
+                cur = rng.choice([t for t in 'bin' if t != cur]) if rng.random() < 0.85 else cur
+                now += rng.choice([0, 1, 1000, 60_000])
+                ops.append(['recreate', main, cur, rng.choice(['api', 'core']), now, rng.choice([-1, -1, -1, 1, 2, 0]),
+                            rng.choice([0, 0, 0, 3600, 4 * 3600])])
+                if rng.random() < 0.3:
+                    ops.append(byts(now))
+                for _ in range(rng.randint(1, 4)):
+                    r = rng.random()
+                    now += rng.choice([0, 1, 1, 1000, 60_000, HOUR + 1])
+                    if r < 0.65:
+                        ops.append(['poll', main, now, rng.choice([v for v in self.VALUES[cur] if v != 'n'] + ['n'])])
+                        tss.append(base + now + rng.choice([0, 0, 5, -1]))
+                    elif r < 0.8:
+                        ops.append(['tick', now])
+                    elif r < 0.9:
+                        ops.append(['hsave', main, now])
+                    else:
+                        ops.append(rng.choice([['interval', main, rng.choice([-1, 1, 0])],
+                                               ['del', 30, main, now, {'from': '0', 'to': str(rng.choice(old) + 1)}]]))
+                    if rng.random() < 0.5:
+                        ops.append(rng.choice([byts, rng_q])(now))
+                if len(tss) > 6:
+                    del tss[:len(tss) - 6]
+            now += rng.choice([1, 1, 2 * HOUR])
+            ops += [byts(now), byts(now), rng_q(now)]
         elif kind == 'periodic':
             base = rng.choice([T0, T0, T0 + 1, T0 + 999, 1546304400000 - 2000])
             intervals = {n: rng.choice([1, 1, 2, 3, 5, 0, -1]) for n in names}
@@ -463,8 +556,11 @@ class C18(Prop):
             for _ in range(rng.randint(3, 6)):
                 ops.append(['get', 10, rng.choice(names), now, q])
                 now += rng.choice([0, 1])
-        return {'driver': rng.choice(['redis', 'redis', 'mongo', 'json']), 'base': base, 'intervals': intervals,
+        case = {'driver': rng.choice(['redis', 'redis', 'mongo', 'json']), 'base': base, 'intervals': intervals,
                 'retention': retention, 'seeds': seeds, 'ops': ops}
+        if virtual:
+            case['virtual'] = True
+        return case
 
     def gen(self, rng, tier):
         if rng.random() < 0.2:
@@ -591,9 +687,29 @@ class C18(Prop):
             else:
                 ops.append(['tick', now])
         retention = {n: rng.choice([0, 0, 0, 3600, 4 * 3600, 1]) for n in names}
+        case = {'driver': driver, 'base': base, 'intervals': intervals, 'retention': retention, 'seeds': seeds}
+        if rng.random() < 0.08:
+            ops = self._recreate(rng, ops, main)
+            if rng.random() < 0.4:
+                case['virtual'] = True
         if rng.random() < 0.35:
             ops = self._overlap(rng, ops)
-        return {'driver': driver, 'base': base, 'intervals': intervals, 'retention': retention, 'seeds': seeds, 'ops': ops}
+        case['ops'] = ops
+        return case
+
+    def _recreate(self, rng, ops, main):
+        """Somewhere in the sequence the main port is removed and created again with another type; the values read
+        afterwards are values of that type."""
+        def now_of(o):
+            return {'get': 3, 'del': 3, 'poll': 2, 'hsave': 2, 'hbyts': 2, 'hremove': 4, 'tick': 1}.get(o[0])
+        i = rng.randint(0, len(ops))
+        nows = [o[now_of(o)] for o in ops[:i] if now_of(o) is not None]
+        tag = rng.choice([t for t in 'bin' if t != PORTS[main][1]] * 3 + [PORTS[main][1]])
+        op = ['recreate', main, tag, rng.choice(['api', 'core']), max(nows) if nows else 0, rng.choice([-1, -1, 0, 2]),
+              rng.choice([0, 0, 3600])]
+        rest = [[o[0], o[1], o[2], rng.choice(self.VALUES[tag])] if o[0] == 'poll' and o[1] == main else o
+                for o in ops[i:]]
+        return ops[:i] + [op] + rest
 
     @staticmethod
     def _overlap(rng, ops):
@@ -610,7 +726,7 @@ class C18(Prop):
         inner = ops[i + 1:i + 1 + n_inner]
         rest = ops[i + 1 + n_inner:]
         def now_of(o):
-            return {'get': 3, 'del': 3, 'poll': 2, 'hsave': 2, 'hbyts': 2, 'hremove': 4, 'tick': 1}.get(o[0])
+            return {'get': 3, 'del': 3, 'poll': 2, 'hsave': 2, 'hbyts': 2, 'hremove': 4, 'tick': 1, 'recreate': 4}.get(o[0])
         nows = [o[now_of(o)] for o in ops[:i + 1 + n_inner] if now_of(o) is not None]
         later = max(nows) if nows else 0
         again = []
@@ -659,6 +775,11 @@ class C18(Prop):
                         yield dict(case, ops=ops[:i] + [op[:4] + [q2]] + ops[i + 1:])
         if case['driver'] != 'json':
             yield dict(case, driver='json')
+        if case.get('virtual'):
+            yield {k: v for k, v in case.items() if k != 'virtual'}
+        for i, op in enumerate(ops):
+            if op[0] == 'recreate' and op[3] != 'core':
+                yield dict(case, ops=ops[:i] + [op[:3] + ['core'] + op[4:]] + ops[i + 1:])
 
     # ------------------------------------------------------------------------------------------ real code
     async def _api(self, func, level, method, port, query):
@@ -702,9 +823,15 @@ class C18(Prop):
         query or a removal) at its persistence call - mode 'b' before the call executes on the store, 'a' after (reply
         held back) - the following operations run to completion, `['end']` resumes it.  At most one operation is
         suspended at a time; stray markers (shrinking) are dropped, a missing `end` is supplied; the final content of
-        every port is read at the end."""
+        every port is read at the end.  `['recreate', port, tag, how, now, interval, retention]` replaces the port by a new
+        one of type `tag` with the same id (how: 'api' = POST /ports, 'core' = core.ports.load)."""
         ev, open_ = [], False
+        tagof = {n: t for n, (_, t) in PORTS.items()}
         for op in case['ops']:
+            if op[0] == 'recreate':
+                tagof[op[1]] = op[2]
+            elif op[0] == 'poll':          # a reading is a value of the type of the port that exists now
+                op = [op[0], op[1], op[2], coerce_tok(op[3], tagof[op[1]])]
             if op[0] == 'begin':
                 if open_ or op[2][0] not in ('get', 'hbyts', 'del', 'hremove'):
                     continue
@@ -738,7 +865,10 @@ class C18(Prop):
         if k == 'poll':
             _, port, now, tok = op
             vclock.set(clock_of(base + now))
-            byname[port].src_value = value_of_tok(tok)
+            if isinstance(byname[port], self.SrcPort):
+                byname[port].src_value = value_of_tok(tok)
+            else:
+                await byname[port].write_value(value_of_tok(tok))      # virtual port: the value its next reading gives
             await self.core_main.update()
             for _ in range(6):
                 await asyncio.sleep(0)
@@ -768,6 +898,20 @@ class C18(Prop):
         if k == 'retention':
             await byname[op[1]].set_attr('history_retention', op[2])
             return 'ok'
+        if k == 'recreate':
+            _, port, tag, how, now, interval, retention = op
+            vclock.set(clock_of(base + now))
+            old = byname[port]
+            if isinstance(old, self.core_vports.VirtualPort):
+                res = await self._api(self.ports_funcs.delete_port, self.admin_level, 'DELETE', port, {})
+                if isinstance(res, str):
+                    return res
+            else:
+                await old.remove()                                     # what DELETE /ports/{id} does with the port
+            byname[port] = await self._create(port, tag, how == 'api')
+            await byname[port].set_attr('history_interval', interval)
+            await byname[port].set_attr('history_retention', retention)
+            return 'ok'
         if k == 'tick':
             vclock.set(clock_of(base + op[1]))
             self.loop.step(1.0)            # the sleeping sampler and janitor are due: one iteration each
@@ -776,27 +920,38 @@ class C18(Prop):
             return 'ok'
         raise ValueError(op)
 
+    async def _create(self, port, tag, virtual):
+        """a new port `port` of type `tag`: virtual (POST /ports) or an instrumented one (core.ports.load)"""
+        if virtual:
+            handler = FakeHandler(self.admin_level, 'POST', {})
+            await self.ports_funcs.post_ports(handler, dict(PTYPE[tag], id=port))
+            return self.core_ports.get(port)
+        new = (await self.core_ports.load([{'driver': self.SrcPort, 'port_id': port, 'typ': PTYPE[tag]['type'],
+                                            'integer': tag == 'i'}]))[0]
+        await new.enable()
+        return new
+
     async def _real(self, case):
         base = case['base']
         vclock.set(clock_of(base))
         await self.backends.fresh_backend(case['driver'])
         switch = self.backends.SwitchDriver
         switch.disarm()
-        ports = await self.core_ports.load([
-            {'driver': self.SrcPort, 'port_id': 'pb', 'typ': 'boolean'},
-            {'driver': self.SrcPort, 'port_id': 'pi', 'integer': True},
-            {'driver': self.SrcPort, 'port_id': 'pn'},
-        ])
-        byname = {p.get_id(): p for p in ports}
+        byname = {}
         out = []
         flight = None            # (task, gate) of the suspended operation
+        recreated = any(op[0] == 'recreate' for op in case['ops'])
         try:
+            for name, (_, tag) in PORTS.items():
+                byname[name] = await self._create(name, tag, bool(case.get('virtual')))
+            ports = list(byname.values())
             for p in ports:
-                await p.enable()
                 await p.set_attr('history_interval', case['intervals'][p.get_id()])
                 await p.set_attr('history_retention', case.get('retention', {}).get(p.get_id(), 0))
             # the by-timestamp cache is module state keyed by port id: drop it (public function) on the empty store
             await self.core_history.remove_samples(ports)
+            for p in ports:          # every port has been asked for its history before (an answer from the empty store)
+                list(await self.core_history.get_samples_slice(p, None, None, 1))
             for name, ts, q in case['seeds']:
                 await self.persist.save_sample(COLLECTION, name, ts, q / 4.0)
             for op in self._events(case):
@@ -834,9 +989,16 @@ class C18(Prop):
                     await flight[0]
                 except Exception:
                     pass
-            for p in ports:
+            for p in byname.values():
                 await p.remove(persisted_data=False)
+                if isinstance(p, self.core_vports.VirtualPort):
+                    await self.core_vports.remove(p.get_id())
             await asyncio.sleep(0)
+            if recreated:            # the removals scheduled by the port removals of this case must not reach the next one
+                vclock.set(clock_of(max(base, T0) + 100 * HOUR))
+                self.loop.step(1.0)
+                for _ in range(10):
+                    await asyncio.sleep(0)
         return out
 
     # ------------------------------------------------------------------------------------------ model
@@ -869,6 +1031,8 @@ class C18(Prop):
             return f'retention {pid_of(op[1])} {op[2]}'
         if k == 'tick':
             return f'tick {base + op[1]}'
+        if k == 'recreate':
+            return f'recreate {pid_of(op[1])} {op[2]} {op[5]} {op[6]}'
         if k == 'begin':
             _, mode, outer = op
             return ('gbegin' if outer[0] in ('get', 'hbyts') else 'dbegin') + f' {mode} ' + self._model_line(outer, base)
@@ -934,6 +1098,8 @@ class C18(Prop):
         interval = dict(case['intervals'])
         retention = {n: case.get('retention', {}).get(n, 0) for n in PORTS}
         last_ts = {n: 0 for n in PORTS}
+        tagof = {n: t for n, (_, t) in PORTS.items()}     # type of the port that exists NOW under each id
+        scheduled = []        # ids of removed ports: the janitor removes the samples stored under them at its next pass
         fail = None
         amb = []              # per event: timestamps whose value is not determined (ties)
         tags = set()
@@ -964,8 +1130,18 @@ class C18(Prop):
             if pend_get is not None:
                 pend_get[2].extend([list(st) for st in candidates()])
 
+        def mutate_either(fns):
+            """one of several store changes happens, which one is not specified (two tasks in the same instant)"""
+            bases[:] = uniq([fn(b) for fn in fns for b in bases])
+            stores[:] = [fn(st) for fn in fns for st in stores]
+            if pend_del is not None:
+                stores.extend(pend_del(b) for b in bases)
+            stores[:] = uniq(stores)
+            if pend_get is not None:
+                pend_get[2].extend([list(st) for st in candidates()])
+
         def check_slice_one(store, idx, port, frm, to, limit, desc, got):
-            tag = PORTS[port][1]
+            tag = tagof[port]
             sel = [(ts, q) for (n, ts, q) in store if n == port and (frm is None or frm <= ts) and (to is None or ts < to)]
             sel.sort(key=lambda s: s[0], reverse=desc)
             exp = sel if limit is None else sel[:limit]
@@ -1008,9 +1184,9 @@ class C18(Prop):
                 first = first or f
             return first, ambiguous
 
-        def check_byts(idx, port, tss, got, cands=None):
+        def check_byts(idx, port, tss, got, cands=None, tag=None):
             cands = candidates() if cands is None else cands
-            tag = PORTS[port][1]
+            tag = tagof[port] if tag is None else tag
             if len(tss) != len(set(tss)):
                 tags.add('dup-timestamps')
             if tss != sorted(tss):
@@ -1135,6 +1311,16 @@ class C18(Prop):
                 interval[op[1]] = op[2]
             elif k == 'retention':
                 retention[op[1]] = op[2]
+            elif k == 'recreate':
+                _, port, tag, how, now, iv, rt = op
+                if got != 'ok':
+                    f = f'op {idx} {op}: removing the port and creating it again was refused: {got}'
+                tags.add('recreate-same-type' if tag == tagof[port] else 'recreate-other-type')
+                tags.add('recreate-' + how)
+                if any(n == port for (n, ts, q) in candidates()[0]):
+                    tags.add('recreate-with-samples-stored')
+                tagof[port], last[port], last_ts[port], interval[port], retention[port] = tag, 'n', 0, iv, rt
+                scheduled.append(port)
             elif k == 'tick':
                 now_ms = base + op[1]
                 if clock_of(now_ms) > self.old_limit / 1000:
@@ -1146,15 +1332,25 @@ class C18(Prop):
                             mutate(lambda st, n=n, lim=lim: [x for x in st if not (x[0] == n and 0 <= x[1] < lim)])
                             if len(candidates()[0]) != before:
                                 tags.add('janitor-removed')
+                    smps = []
                     for n in PORTS:                 # sampler: ports with a period whose last sample is old enough
                         if interval[n] > 0 and now_ms - last_ts[n] >= interval[n] * 1000:
                             last_ts[n] = now_ms
                             if last[n] != 'n':
-                                smp = (n, now_ms, stored_of_tok(last[n]))
-                                mutate(lambda st, smp=smp: st + [smp])
+                                smps.append((n, now_ms, stored_of_tok(last[n])))
                                 tags.add('periodic-sample')
                         elif interval[n] > 0:
                             tags.add('periodic-not-due')
+                    if scheduled:                   # ... the janitor also removes everything stored under the ids of
+                        gone = set(scheduled)       # removed ports; sampler and janitor are two tasks: either comes first
+                        del scheduled[:]
+                        before = len(candidates()[0])
+                        mutate_either([lambda st: [x for x in st if x[0] not in gone] + smps,
+                                       lambda st: [x for x in st + smps if x[0] not in gone]])
+                        tags.add('scheduled-removal' if len(candidates()[0]) != before + len(smps)
+                                 else 'scheduled-removal-nothing')
+                    elif smps:
+                        mutate(lambda st: st + smps)
             return f, a
 
         for idx, op in enumerate(ops):
@@ -1168,7 +1364,7 @@ class C18(Prop):
                     tags.add('overlapped-query-' + mode)
                     port = outer[2] if outer[0] == 'get' else outer[1]
                     tss = parse_byts(outer[4]) if outer[0] == 'get' else list(outer[3])
-                    pend_get = (port, tss, [list(st) for st in candidates()])
+                    pend_get = (port, tss, [list(st) for st in candidates()], tagof[port])
                 else:
                     tags.add('overlapped-removal-' + mode)
                     if outer[0] == 'del':
@@ -1184,9 +1380,9 @@ class C18(Prop):
                     stores[:] = uniq([rm(b) for b in bases])   # ... or with it
             elif op[0] == 'end':
                 if pend_get is not None:
-                    port, tss, snaps = pend_get
+                    port, tss, snaps, tag = pend_get      # typed like the port the query was made for
                     pend_get = None
-                    f, a = check_byts(idx, port, tss, got, cands=snaps)
+                    f, a = check_byts(idx, port, tss, got, cands=snaps, tag=tag)
                 elif pend_del is not None:
                     pend_del = None
                     tags.add('delete')
@@ -1242,7 +1438,8 @@ class C18(Prop):
         key = None
         if nonempty and tags & {'cache-hit', 'delete', 'change-recorded', 'save-sample', 'limit-cut', 'dup-timestamps',
                                 'unsorted-timestamps', 'periodic-sample', 'janitor-removed', 'overlapped-query-a',
-                                'overlapped-query-b', 'overlapped-removal-a', 'overlapped-removal-b'}:
+                                'overlapped-query-b', 'overlapped-removal-a', 'overlapped-removal-b',
+                                'recreate-other-type'}:
             key = repr(real_c)[:4000]
         return fail, {'tags': sorted(tags), 'key': key, 'observed': real_c if len(repr(real_c)) < 20000 else 'long'}
 
